@@ -8,6 +8,19 @@ bind  : TLC prints the exact factors of pi(s) for every reachable joint state of
         for every (parental pair, index pair) the prob_accept of pair_allele_swap_step (interpreted, index
         draws forced; compiled where the draw does not matter) with min(1, pi(t)/pi(s));
         interpreted mcmc_sampler runs are recorded and validated by TracePedigree.tla
+regimes added after the fourth seeded round:
+  * read layouts - the model's read set is a bag of (read, count) rows (ReadOrderIrrelevant, ZeroCountNeutral):
+        pedigrees whose unused (count 0) read slots are leading / interior, and every pedigree laid out a second
+        time with its read slots permuted and unused NaN slots inserted before / between the used ones, must give
+        the same kernels as the model's table;
+  * shared likelihood cache - the kernel rows of the model are functions of the joint state only.  (i) cached_walk:
+        the reachable states of the mixed-ploidy pedigrees (several sample orders: higher ploidy first, lower
+        ploidy first, child before its parents) are replayed interpreted with ONE cache dictionary shared by all
+        individuals, move types and states, visiting the individuals in ascending and descending order; (ii) the
+        recorded mcmc_sampler runs carry the vector every update drew from / every prob_accept, computed with the
+        sampler's own cache, and TracePedigree.tla validates them against GibbsRow / MHRow / SwapAccept of the
+        current joint state (clauses GibbsRowIsFullConditional, MHRowIsKernelRow, SwapAcceptIsTargetRatio,
+        CacheTransparent).
 """
 import json
 import math
@@ -31,6 +44,7 @@ MUTANTS = [
     ("Mutant_swapcount.cfg", "SwapDetailedBalance"),
     ("Mutant_reads.cfg", "SwapDetailedBalance"),
     ("Mutant_mhcount.cfg", "MHDetailedBalance"),
+    ("Mutant_zerocount.cfg", "ZeroCountNeutral"),
 ]
 
 
@@ -81,6 +95,33 @@ def mask_feature(ped, p, q):
     return "q-row-beyond-p-rows" if len(rq) > len(rp) else "same-mask"
 
 
+def make_layout(ped, rnd):
+    """read slots permuted, with one or two unused slots inserted before / between the used ones"""
+    lay = []
+    for rs in ped["reads"]:
+        sl = list(range(len(rs)))
+        rnd.shuffle(sl)
+        for _ in range(rnd.randint(1, 2)):
+            sl.insert(rnd.randint(0, max(0, len(sl) - 1)), -1)
+        lay.append(sl)
+    return lay
+
+
+def reads_feature(ped, layout, i):
+    """does individual i (0-based) have an unused read slot in front of a used one in this layout?"""
+    rs = ped["reads"][i]
+    sl = layout[i] if layout is not None else list(range(len(rs)))
+    cnt = [rs[x]["n"] if x >= 0 else 0 for x in sl]
+    used = [m for m, c in enumerate(cnt) if c > 0]
+    if not used:
+        return "no-reads"
+    return "unused-slot-before-used" if any(c == 0 for c in cnt[: used[-1]]) else "unused-slots-trailing-only"
+
+
+def lay_name(layout):
+    return "model-order" if layout is None else "permuted-with-inserted-unused-slots"
+
+
 def run_pool(ck, tasks, mode, site):
     try:
         return pool.map_tasks("impl.c18", tasks, mode=mode)
@@ -117,12 +158,14 @@ def main():
         ck.machinery_failure(str(e))
 
     peds = {}
+    rowpeds = set()
     table = {}          # ped name -> {state key -> pi (Fraction)}
     states = {}         # ped name -> [state]
     for p in r.printed:
         if "peds" in p:
             for ped in p["peds"]:
                 peds[ped["name"]] = ped
+            rowpeds = set(p.get("rowpeds", []))
         else:
             k = tkey(p["s"])
             t = table.setdefault(p["ped"], {})
@@ -159,50 +202,134 @@ def main():
                 ck.violation("pair-blanket", {"ped": name, "pair": [p, q], "impl": bl, "model": want},
                              key={"site": "parental_pair_markov_blankets", "ped": name})
 
-    # ---- spec -> code: allele kernels (compiled) -----------------------------
+    # one extra read layout per pedigree (the model's read set is a bag: same kernels)
+    layouts = {name: make_layout(peds[name], rnd) for name in sorted(table)}
+    ck.note("read_layouts", {name: layouts[name] for name in sorted(table)})
+
+    def judge_alleles(name, s, rows, layout, cache, gib=None, mhk=None):
+        """kernel rows of one state vs the conditionals of the model's table"""
+        ped, tb, feats = peds[name], table[name], ped_features(peds[name])
+        K = ped["K"]
+        ks = tkey(s)
+        for row in rows:
+            i, k = row["i"] - 1, row["k"] - 1
+            w = [tb.get(set_cell(ks, i, k, b), Fraction(0)) for b in range(K)]
+            tot = sum(w)
+            a = s[i][k]
+            exp_g = [x / tot for x in w]
+            exp_mh = [min(Fraction(1), w[b] / w[a]) / (K - 1) if b != a else None for b in range(K)]
+            exp_mh[a] = 1 - sum(x for x in exp_mh if x is not None)
+            ck.evaluations += 2
+            if sum(1 for x in w if x > 0) >= 2:
+                ck.nontrivial += 2
+            fkey = dict(feats[i], ped=name, layout=lay_name(layout), reads=reads_feature(ped, layout, i),
+                        cache="shared" if cache else "none")
+            det = {"ped": name, "state": s, "individual": i + 1, "position": k + 1, "read_layout": layout,
+                   "likelihood_cache": "one dictionary shared by all individuals, moves and states" if cache else None}
+            if not all(close_prob(x, q) for x, q in zip(row["gibbs"], exp_g)):
+                ck.violation("gibbs-vector", dict(det, impl=row["gibbs"], model=[str(x) for x in exp_g],
+                                                  model_float=[float(x) for x in exp_g]),
+                             key=dict(fkey, site="gibbs_probabilities"))
+            if not all(close_prob(x, q) for x, q in zip(row["mh"], exp_mh)):
+                ck.violation("mh-vector", dict(det, impl=row["mh"], model=[str(x) for x in exp_mh]),
+                             key=dict(fkey, site="metropolis_hastings_probabilities"))
+            if cache:
+                # the same call without a cache: a cache is only a cache
+                for kern, site in (("gibbs", "gibbs_probabilities"), ("mh", "metropolis_hastings_probabilities")):
+                    ck.evaluations += 1
+                    if max(abs(x - y) for x, y in zip(row[kern], row[kern + "0"])) > 1e-12:
+                        ck.violation("cache-dependence", dict(det, kernel=kern, with_shared_cache=row[kern],
+                                                              without_cache=row[kern + "0"]),
+                                     key=dict(fkey, site=site, what="cache-transparent"))
+            if gib is not None:
+                gib[(name, ks, i, k)] = row["gibbs"]
+                mhk[(name, ks, i, k)] = row["mh"]
+
+    def judge_swaps(name, s, rows, layout, cache, swp=None):
+        """prob_accept / effect of the pair step for every forced (pair, ip, iq) of one state"""
+        ped, tb = peds[name], table[name]
+        ks = tkey(s)
+        for row in rows:
+            p, q, ip, iq = row["p"] - 1, row["q"] - 1, row["ip"] - 1, row["iq"] - 1
+            ck.evaluations += 1
+            key = {"site": "pair_allele_swap_step", "ped": name, "mask": mask_feature(ped, p, q),
+                   "selfing": p == q, "layout": lay_name(layout), "cache": "shared" if cache else "none",
+                   "reads": sorted(set([reads_feature(ped, layout, p), reads_feature(ped, layout, q)]))[-1]}
+            if s[p][ip] == s[q][iq]:
+                if not math.isnan(row["prob"]) or tkey(row["after"]) != ks:
+                    ck.violation("swap-noop", {"ped": name, "state": s, "row": row}, key=dict(key, what="noop"))
+                continue
+            t = swap_target(ks, p, q, ip, iq)
+            exp = min(Fraction(1), tb.get(t, Fraction(0)) / tb[ks])
+            if 0 < exp < 1:
+                ck.nontrivial += 1
+            if swp is not None:
+                swp[(name, ks, p, q, ip, iq)] = (row["prob"], t)
+            if not close_prob(row["prob"], exp):
+                ck.violation("swap-accept", {"ped": name, "state": s, "pair": [p + 1, q + 1], "index_p": ip + 1,
+                                             "index_q": iq + 1, "impl": row["prob"], "model": str(exp),
+                                             "model_float": float(exp), "read_layout": layout}, key=key)
+            if cache and not abs(row["prob"] - row["prob0"]) <= 1e-12:
+                ck.violation("cache-dependence", {"ped": name, "state": s, "pair": [p + 1, q + 1], "index_p": ip + 1,
+                                                  "index_q": iq + 1, "with_shared_cache": row["prob"],
+                                                  "without_cache": row["prob0"], "read_layout": layout},
+                             key=dict(key, what="cache-transparent"))
+            want_after = t if row["accept"] else ks
+            if tkey(row["after"]) != want_after:
+                ck.violation("swap-effect", {"ped": name, "state": s, "row": row}, key=dict(key, what="effect"))
+
+    # ---- spec -> code: allele kernels (compiled), model-order layout and the permuted / padded layout ------
     tasks, owners = [], []
     for name, sts in states.items():
-        for c in range(0, len(sts), 60):
-            tasks.append({"op": "allele_kernels", "ped": peds[name], "states": sts[c:c + 60]})
-            owners.append((name, sts[c:c + 60]))
+        for layout in (None, layouts[name]):
+            for c in range(0, len(sts), 60):
+                tasks.append({"op": "allele_kernels", "ped": peds[name], "states": sts[c:c + 60], "layout": layout})
+                owners.append((name, sts[c:c + 60], layout))
     res = run_pool(ck, tasks, "jit", "gibbs_probabilities")
     gib = {}    # (ped, state key, i, k) -> impl vector, for the stationarity check
     mhk = {}
-    for (name, sts), rr in zip(owners, res):
-        ped, tb, feats = peds[name], table[name], ped_features(peds[name])
-        K = ped["K"]
+    for (name, sts, layout), rr in zip(owners, res):
         if not rr["ok"]:
-            ck.violation("impl-error", {"error": rr["error"], "ped": name, "first_state": sts[0]},
-                         key={"site": "gibbs_probabilities", "ped": name, "kind": "exception"})
+            ck.violation("impl-error", {"error": rr["error"], "ped": name, "first_state": sts[0], "read_layout": layout},
+                         key={"site": "gibbs_probabilities", "ped": name, "kind": "exception", "layout": lay_name(layout)})
             continue
         for s, o in zip(sts, rr["result"]):
-            ks = tkey(s)
             ck.traces += 1
             if not o["restored"]:
                 ck.violation("state-not-restored", {"ped": name, "state": s}, key={"site": "gibbs_probabilities", "what": "restore"})
-            for row in o["rows"]:
-                i, k = row["i"] - 1, row["k"] - 1
-                w = [tb.get(set_cell(ks, i, k, b), Fraction(0)) for b in range(K)]
-                tot = sum(w)
-                a = s[i][k]
-                exp_g = [x / tot for x in w]
-                exp_mh = [min(Fraction(1), w[b] / w[a]) / (K - 1) if b != a else None for b in range(K)]
-                exp_mh[a] = 1 - sum(x for x in exp_mh if x is not None)
-                ck.evaluations += 2
-                if sum(1 for x in w if x > 0) >= 2:
-                    ck.nontrivial += 2
-                fkey = dict(feats[i], ped=name)
-                if not all(close_prob(x, q) for x, q in zip(row["gibbs"], exp_g)):
-                    ck.violation("gibbs-vector", {"ped": name, "state": s, "individual": i + 1, "position": k + 1,
-                                                  "impl": row["gibbs"], "model": [str(x) for x in exp_g],
-                                                  "model_float": [float(x) for x in exp_g]},
-                                 key=dict(fkey, site="gibbs_probabilities"))
-                if not all(close_prob(x, q) for x, q in zip(row["mh"], exp_mh)):
-                    ck.violation("mh-vector", {"ped": name, "state": s, "individual": i + 1, "position": k + 1,
-                                               "impl": row["mh"], "model": [str(x) for x in exp_mh]},
-                                 key=dict(fkey, site="metropolis_hastings_probabilities"))
-                gib[(name, ks, i, k)] = row["gibbs"]
-                mhk[(name, ks, i, k)] = row["mh"]
+            if layout is None:
+                judge_alleles(name, s, o["rows"], layout, False, gib, mhk)
+            else:
+                judge_alleles(name, s, o["rows"], layout, False)
+
+    # ---- spec -> code: the kernels with ONE likelihood cache shared by all individuals, moves and states ----
+    # (interpreted; the mixed-ploidy pedigrees in their different sample orders)
+    mixed = [name for name in sorted(table) if len(set(peds[name]["ploidy"])) > 1]
+    tasks, owners = [], []
+    for name in mixed:
+        sts = list(states[name])
+        rnd.shuffle(sts)
+        for num, c in enumerate(range(0, len(sts), 64)):
+            layout = layouts[name] if num % 2 else None
+            tasks.append({"op": "cached_walk", "ped": peds[name], "states": sts[c:c + 64], "layout": layout, "flip": num // 2})
+            owners.append((name, sts[c:c + 64], layout))
+    res = run_pool(ck, tasks, "py", "gibbs_probabilities") if tasks else []
+    nwalk = 0
+    for (name, sts, layout), rr in zip(owners, res):
+        if not rr["ok"]:
+            ck.violation("impl-error", {"error": rr["error"], "ped": name, "first_state": sts[0], "read_layout": layout},
+                         key={"site": "gibbs_probabilities", "ped": name, "kind": "exception", "cache": "shared"})
+            continue
+        for s, o in zip(sts, rr["result"]):
+            nwalk += 1
+            ck.traces += 1
+            if not o["restored"]:
+                ck.violation("state-not-restored", {"ped": name, "state": s},
+                             key={"site": "gibbs_probabilities", "what": "restore", "cache": "shared"})
+            judge_alleles(name, s, o["rows"], layout, True)
+            judge_swaps(name, s, o["swaps"], layout, True)
+    ck.note("shared_cache_walk", {"pedigrees": mixed, "states": nwalk})
+
     # numeric stationarity of the extracted kernels w.r.t. the model joint:
     #   sum_b pi(s_b) K(s_b -> s_c) = pi(s_c) on every conditional slice
     worst = {"gibbs": 0.0, "mh": 0.0}
@@ -242,40 +369,21 @@ def main():
         ped = peds[name]
         if not any(pq[0] > 0 and pq[1] > 0 for pq in ped["par"]):
             continue
-        for c in range(0, len(sts), 40):
+        for num, c in enumerate(range(0, len(sts), 40)):
             tasks.append({"op": "swap_py", "ped": ped, "states": sts[c:c + 40]})
-            owners.append((name, sts[c:c + 40]))
+            owners.append((name, sts[c:c + 40], None))
+            if tier != "quick" or num % 3 == 0:
+                tasks.append({"op": "swap_py", "ped": ped, "states": sts[c:c + 40], "layout": layouts[name]})
+                owners.append((name, sts[c:c + 40], layouts[name]))
     res = run_pool(ck, tasks, "py", "pair_allele_swap_step") if tasks else []
     swp = {}
-    for (name, sts), rr in zip(owners, res):
-        ped, tb = peds[name], table[name]
+    for (name, sts, layout), rr in zip(owners, res):
         if not rr["ok"]:
-            ck.violation("impl-error", {"error": rr["error"], "ped": name, "first_state": sts[0]},
-                         key={"site": "pair_allele_swap_step", "ped": name, "kind": "exception"})
+            ck.violation("impl-error", {"error": rr["error"], "ped": name, "first_state": sts[0], "read_layout": layout},
+                         key={"site": "pair_allele_swap_step", "ped": name, "kind": "exception", "layout": lay_name(layout)})
             continue
         for s, rows in zip(sts, rr["result"]):
-            ks = tkey(s)
-            for row in rows:
-                p, q, ip, iq = row["p"] - 1, row["q"] - 1, row["ip"] - 1, row["iq"] - 1
-                ck.evaluations += 1
-                key = {"site": "pair_allele_swap_step", "ped": name, "mask": mask_feature(ped, p, q),
-                       "selfing": p == q}
-                if s[p][ip] == s[q][iq]:
-                    if not math.isnan(row["prob"]) or tkey(row["after"]) != ks:
-                        ck.violation("swap-noop", {"ped": name, "state": s, "row": row}, key=dict(key, what="noop"))
-                    continue
-                t = swap_target(ks, p, q, ip, iq)
-                exp = min(Fraction(1), tb.get(t, Fraction(0)) / tb[ks])
-                if 0 < exp < 1:
-                    ck.nontrivial += 1
-                swp[(name, ks, p, q, ip, iq)] = (row["prob"], t)
-                if not close_prob(row["prob"], exp):
-                    ck.violation("swap-accept", {"ped": name, "state": s, "pair": [p + 1, q + 1], "index_p": ip + 1,
-                                                 "index_q": iq + 1, "impl": row["prob"], "model": str(exp),
-                                                 "model_float": float(exp)}, key=key)
-                want_after = t if row["accept"] else ks
-                if tkey(row["after"]) != want_after:
-                    ck.violation("swap-effect", {"ped": name, "state": s, "row": row}, key=dict(key, what="effect"))
+            judge_swaps(name, s, rows, layout, False, swp if layout is None else None)
     # detailed balance of the extracted swap kernel
     worst_sw = 0.0
     for (name, ks, p, q, ip, iq), (pr, t) in swp.items():
@@ -327,21 +435,31 @@ def main():
                                                  "model": str(exp), "model_float": float(exp), "mode": "jit"}, key=key)
 
     # ---- code -> spec: interpreted sampler runs ------------------------------
+    # pedigrees in RowPedNames: every update also carries the vector it drew from / its prob_accept, computed with
+    # the cache mcmc_sampler shares between all individuals; the mixed-ploidy ones get longer runs in both layouts
     steps = 12 if tier == "quick" else 40
     tasks = []
     for name, sts in sorted(states.items()):
-        for rep in range(2 if tier == "quick" else 4):
-            tasks.append({"op": "sampler_trace", "ped": peds[name], "start": rnd.choice(sts), "steps": steps,
-                          "step_type": rep % 2, "swap": rep != 1, "seed": ck.seed + 17 * rep + len(tasks)})
+        rows = name in rowpeds
+        long_ = rows and name in mixed
+        for rep in range(4 if (tier != "quick" or long_) else 2):
+            tasks.append({"op": "sampler_trace", "ped": peds[name], "start": rnd.choice(sts),
+                          "steps": 2 * steps if long_ else steps,
+                          "step_type": rep % 2, "swap": rep != 1, "seed": ck.seed + 17 * rep + len(tasks),
+                          "rows": rows, "layout": layouts[name] if rep >= 2 or (rows and not long_ and rep == 1) else None})
     res = run_pool(ck, tasks, "py", "mcmc_sampler")
     ev = []
+    owner = []          # event line -> task
     runs = 0
+    row_events = 0
     for tsk, rr in zip(tasks, res):
         if not rr["ok"]:
             ck.violation("impl-error", {"error": rr["error"], "ped": tsk["ped"]["name"]},
                          key={"site": "mcmc_sampler", "ped": tsk["ped"]["name"], "kind": "exception"})
             continue
         ev.extend(rr["result"])
+        owner.extend([tsk] * len(rr["result"]))
+        row_events += sum(1 for e in rr["result"] if "pr" in e or "acc" in e)
         runs += 1
     if ev:
         tf = os.path.join(ck.wd, "trace.json")
@@ -358,14 +476,23 @@ def main():
         for p in t.printed:
             if "reject" in p:
                 e = ev[p["reject"] - 1]
-                ck.violation("trace-reject", {"line": p["reject"], "clause": p["clause"], "event": e},
-                             key={"site": "mcmc_sampler", "event": e["op"], "clause": p["clause"]})
+                tsk = owner[p["reject"] - 1]
+                ck.violation("trace-reject", {"line": p["reject"], "clause": p["clause"], "event": e,
+                                              "ped": tsk["ped"]["name"], "read_layout": tsk["layout"],
+                                              "step_type": "mh" if tsk["step_type"] else "gibbs", "seed": tsk["seed"],
+                                              "start": tsk["start"], "steps": tsk["steps"]},
+                             key={"site": "mcmc_sampler", "event": e["op"], "clause": p["clause"],
+                                  "ped": tsk["ped"]["name"], "layout": lay_name(tsk["layout"]),
+                                  "cache": "shared (mcmc_sampler's own)"})
         ck.traces += runs
         ck.evaluations += len(ev)
+        ck.nontrivial += row_events
         ck.note("recorded_sampler_runs", runs)
         ck.note("recorded_events", len(ev))
+        ck.note("recorded_events_with_kernel_rows", row_events)
         ck.sample({"kind": "recorded-sampler-events", "events": ev[:8]})
-        # binding demonstration: corrupted traces must be rejected
+        # binding demonstration: corrupted traces must be rejected (one TLC run; every segment is a run of its own
+        # that begins with its start event)
         n1 = next(i for i, e in enumerate(ev) if e["op"] == "record")
         first = ev[: n1 + 1]
         bad1 = [dict(e) for e in first]
@@ -374,16 +501,48 @@ def main():
         bad2 = [dict(e) for e in first]
         bad2[-1] = dict(bad2[-1], rows=[list(reversed(x)) if len(set(x)) > 1 else [y + 1 for y in x] for x in bad2[-1]["rows"]])
         bad3 = [dict(e) for e in first if e["op"] != "allele" or (e["i"], e["k"]) != (1, 1)]   # a position never updated
-        nrej = 0
-        for nm, b in (("dup", bad1), ("row", bad2), ("skip", bad3)):
-            tfb = os.path.join(ck.wd, "trace-corrupt-%s.json" % nm)
-            with open(tfb, "w") as fh:
-                json.dump(b, fh)
+        segs = [("dup", bad1, None), ("row", bad2, None), ("skip", bad3, None)]
+        # a kernel row / an acceptance probability that is not the model's in the current joint state
+        for kind, clause in (("gibbs", "GibbsRowIsFullConditional"), ("mh", "MHRowIsKernelRow")):
+            hit = next((i for i, e in enumerate(ev) if e.get("kind") == kind and max(e["pr"]) - min(e["pr"]) > 1000), None)
+            if hit is not None:
+                i0 = max(j for j in range(hit + 1) if ev[j]["op"] == "start")
+                seg = [dict(e) for e in ev[i0:hit + 1]]
+                seg[-1]["pr"] = list(reversed(seg[-1]["pr"]))
+                segs.append(("kernel-row-" + kind, seg, clause))
+        hit = next((i for i, e in enumerate(ev) if e.get("acc", -1) >= 0 and e["acc"] < 900000), None)
+        if hit is not None:
+            i0 = max(j for j in range(hit + 1) if ev[j]["op"] == "start")
+            seg = [dict(e) for e in ev[i0:hit + 1]]
+            seg[-1]["acc"] = seg[-1]["acc"] + 50000
+            segs.append(("swap-accept", seg, "SwapAcceptIsTargetRatio"))
+        hit = next((i for i, e in enumerate(ev) if e.get("kind") == "gibbs"), None)
+        if hit is not None:
+            i0 = max(j for j in range(hit + 1) if ev[j]["op"] == "start")
+            seg = [dict(e) for e in ev[i0:hit + 1]]
+            seg[-1]["pr0"] = [x + 7 if j == 0 else x - 7 if j == 1 else x for j, x in enumerate(seg[-1]["pr0"])]
+            segs.append(("cache-free-differs", seg, "CacheTransparent"))
+        if rowpeds and len(segs) != 7:
+            ck.machinery_failure("no recorded kernel rows to corrupt (%d segments)" % len(segs))
+        allbad, bounds = [], []
+        for nm, b, clause in segs:
+            bounds.append((len(allbad) + 1, len(allbad) + len(b), nm, clause))
+            allbad.extend(b)
+        tfb = os.path.join(ck.wd, "trace-corrupt.json")
+        with open(tfb, "w") as fh:
+            json.dump(allbad, fh)
+        try:
             t = tlc.run(SPEC, "TracePedigree", "Trace.cfg", workers=1, extra_env={"TRACE_FILE": tfb}, timeout=900)
-            if any("reject" in p for p in t.printed):
+        except tlc.TLCError as e:
+            ck.machinery_failure(str(e))
+        rej = [(p["reject"], p["clause"]) for p in t.printed if "reject" in p]
+        nrej = 0
+        for lo, hi, nm, clause in bounds:
+            got = [c for l, c in rej if lo <= l <= hi]
+            if got and (clause is None or clause in got):
                 nrej += 1
-        if nrej != 3:
-            ck.machinery_failure("corrupted traces rejected: %d of 3" % nrej)
+            else:
+                ck.machinery_failure("corrupted trace %s not rejected as expected (%s): %s" % (nm, clause, got))
         ck.note("corrupted_traces_rejected", nrej)
 
     name = sorted(table)[0]
@@ -395,6 +554,8 @@ def main():
         "TLC and CommunityModules Json are correct",
         "exhaustive over the reachable joint states of the pedigrees listed in spec/PedigreeSampler/MC_%s.cfg; "
         "reads call alleles with P(correct) = 7/8 (rational likelihood numerators)" % tier,
+        "the shared likelihood cache is exercised interpreted (NUMBA_DISABLE_JIT=1: a plain dict, in cached_walk, and the "
+        "dict mcmc_sampler creates itself, in the recorded runs); the compiled kernels are replayed without a cache",
         "pair_allele_swap_step is observed interpreted (NUMBA_DISABLE_JIT=1) with np.random.randint forced; "
         "compiled only on states where the draw does not matter (numba compiles the same source)",
     ]
